@@ -10,6 +10,8 @@
 (*   hcr (handle_client_request):      pass | mod | drop | rej | drop2 (drop on its second invocation only)        *)
 (*   huc (handle_upstream_chunk):      pass | mod | drop                                                          *)
 (*   log (on_access_log):              pass | none (return None: ends the access-log chain)                        *)
+(*   dns (resolve_dns):                none | ip (names the address to connect to: the first such plugin wins and     *)
+(*                                     ends the resolve chain)                                                      *)
 (* auth: "off" | "ok" | "bad" - the authentication plugin sits AHEAD of plugin 1.                                  *)
 (* ending: how the connection ends.  Every step of the model is one hook call or one observable effect, so the    *)
 (* call log of a real execution can be stepped through the same actions (spec/TraceChain.tla).                     *)
@@ -20,10 +22,11 @@ BUC == {"pass", "mod", "drop", "rej"}
 HCR == {"pass", "mod", "drop", "rej", "drop2"}
 HUC == {"pass", "mod", "drop"}
 LOG == {"pass", "none"}
+DNS == {"none", "ip"}
 Endings == {"normal", "cabort", "uabort", "refused"}
-Behaviour == [buc : BUC, hcr : HCR, huc : HUC, log : LOG]
+Behaviour == [buc : BUC, hcr : HCR, huc : HUC, log : LOG, dns : DNS]
 Dev(b) == (IF b.buc = "pass" THEN 0 ELSE 1) + (IF b.hcr = "pass" THEN 0 ELSE 1) + (IF b.huc = "pass" THEN 0 ELSE 1)
-          + (IF b.log = "pass" THEN 0 ELSE 1)
+          + (IF b.log = "pass" THEN 0 ELSE 1) + (IF b.dns = "none" THEN 0 ELSE 1)
 Programs == {pr \in [1..NP -> Behaviour] : \A p \in 1..NP : Dev(pr[p]) <= MAXDEV}
 
 VARIABLES prog, auth, ending,
@@ -32,16 +35,17 @@ VARIABLES prog, auth, ending,
           rtags,             \* modifications applied to the current response chunk: Seq of plugin
           nhcr,              \* [plugin -> number of handle_client_request invocations so far]
           calls,             \* history: Seq of [p, h, seen]   (seen = tags / rtags on entry)
+          dest,              \* 0 = the address the request names, p = the address plugin p's resolve_dns returned
           conn,              \* "none" | "ok" | "failed"
           doconn,            \* before_upstream_connection chain did not say "no connection"
           fwd,               \* Seq of tag sequences: the requests forwarded to the origin, in order
           out,               \* Seq of what the client is sent: <<"rej", p, h>> | <<"502">> | <<"407">> | <<"resp", rtags>>
           closed             \* the proxy has closed the client connection by its own decision
-vars == <<prog, auth, ending, pc, i, r, tags, rtags, nhcr, calls, conn, doconn, fwd, out, closed>>
+vars == <<prog, auth, ending, pc, i, r, tags, rtags, nhcr, calls, conn, doconn, fwd, out, closed, dest>>
 
 Init == /\ prog \in Programs /\ auth \in {"off", "ok", "bad"} /\ ending \in Endings
         /\ pc = "auth" /\ i = 1 /\ r = 1 /\ tags = <<>> /\ rtags = <<>> /\ nhcr = [p \in 1..NP |-> 0] /\ calls = <<>>
-        /\ conn = "none" /\ doconn = TRUE /\ fwd = <<>> /\ out = <<>> /\ closed = FALSE
+        /\ conn = "none" /\ doconn = TRUE /\ fwd = <<>> /\ out = <<>> /\ closed = FALSE /\ dest = 0
 
 Call(p, h, seen) == calls' = Append(calls, [p |-> p, h |-> h, seen |-> seen])
 Goto(ph) == pc' = ph /\ i' = 1
@@ -50,11 +54,11 @@ Goto(ph) == pc' = ph /\ i' = 1
 Auth == /\ pc = "auth"
         /\ IF auth = "bad" THEN out' = Append(out, <<"407">>) /\ closed' = TRUE /\ Goto("log")
            ELSE Goto("buc") /\ UNCHANGED <<out, closed>>
-        /\ UNCHANGED <<prog, auth, ending, r, tags, rtags, nhcr, calls, conn, doconn, fwd>>
+        /\ UNCHANGED <<prog, auth, ending, r, tags, rtags, nhcr, calls, conn, doconn, fwd, dest>>
 
 Buc == /\ pc = "buc"
        /\ IF i > NP
-          THEN /\ Goto(IF doconn THEN "connect" ELSE "hcr")
+          THEN /\ Goto(IF doconn THEN "dns" ELSE "hcr")
                /\ UNCHANGED <<tags, calls, out, closed, doconn>>
           ELSE /\ Call(i, "buc", tags)
                /\ LET b == prog[i].buc IN
@@ -62,13 +66,20 @@ Buc == /\ pc = "buc"
                     [] b = "mod"  -> i' = i + 1 /\ tags' = Append(tags, <<i, "buc">>) /\ UNCHANGED <<pc, out, closed, doconn>>
                     [] b = "drop" -> doconn' = FALSE /\ Goto("hcr") /\ UNCHANGED <<tags, out, closed>>     \* chain ends, no connection
                     [] b = "rej"  -> out' = Append(out, <<"rej", i, "buc">>) /\ closed' = TRUE /\ Goto("log") /\ UNCHANGED <<tags, doconn>>
-       /\ UNCHANGED <<prog, auth, ending, r, rtags, nhcr, conn, fwd>>
+       /\ UNCHANGED <<prog, auth, ending, r, rtags, nhcr, conn, fwd, dest>>
+
+\* connect_upstream first asks the plugins, in order, for an address; the first one that names one ends the chain
+Dns == /\ pc = "dns"
+       /\ IF i > NP THEN Goto("connect") /\ UNCHANGED <<calls, dest>>
+          ELSE /\ Call(i, "dns", <<>>)
+               /\ IF prog[i].dns = "ip" THEN dest' = i /\ Goto("connect") ELSE i' = i + 1 /\ UNCHANGED <<pc, dest>>
+       /\ UNCHANGED <<prog, auth, ending, r, tags, rtags, nhcr, conn, doconn, fwd, out, closed>>
 
 Connect == /\ pc = "connect"
            /\ IF ending = "refused"
               THEN conn' = "failed" /\ out' = Append(out, <<"502">>) /\ closed' = TRUE /\ Goto("log")
               ELSE conn' = "ok" /\ Goto("hcr") /\ UNCHANGED <<out, closed>>
-           /\ UNCHANGED <<prog, auth, ending, r, tags, rtags, nhcr, calls, doconn, fwd>>
+           /\ UNCHANGED <<prog, auth, ending, r, tags, rtags, nhcr, calls, doconn, fwd, dest>>
 
 Hcr == /\ pc = "hcr"
        /\ IF i > NP
@@ -81,7 +92,7 @@ Hcr == /\ pc = "hcr"
                     [] b = "mod"  -> i' = i + 1 /\ tags' = Append(tags, <<i, "hcr">>) /\ UNCHANGED <<pc, out, closed, fwd>>
                     [] b = "drop" \/ (b = "drop2" /\ nhcr[i] + 1 = 2) -> Goto("after") /\ UNCHANGED <<tags, out, closed, fwd>>   \* this request is not forwarded
                     [] b = "rej"  -> out' = Append(out, <<"rej", i, "hcr">>) /\ closed' = TRUE /\ Goto("log") /\ UNCHANGED <<tags, fwd>>
-       /\ UNCHANGED <<prog, auth, ending, r, rtags, conn, doconn>>
+       /\ UNCHANGED <<prog, auth, ending, r, rtags, conn, doconn, dest>>
 
 \* the origin answers request r (or goes away instead)
 Resp == /\ pc = "resp"
@@ -94,27 +105,27 @@ Resp == /\ pc = "resp"
                    CASE b = "pass" -> i' = i + 1 /\ UNCHANGED <<pc, rtags, out>>
                      [] b = "mod"  -> i' = i + 1 /\ rtags' = Append(rtags, i) /\ UNCHANGED <<pc, out>>
                      [] b = "drop" -> Goto("after") /\ UNCHANGED <<rtags, out>>       \* the chunk is not relayed
-        /\ UNCHANGED <<prog, auth, ending, r, tags, nhcr, conn, doconn, fwd, closed>>
+        /\ UNCHANGED <<prog, auth, ending, r, tags, nhcr, conn, doconn, fwd, closed, dest>>
 
 \* between requests: the client sends the next request of a normal conversation, or the conversation ends
 After == /\ pc = "after"
          /\ IF ending = "normal" /\ r < NREQ /\ conn = "ok"
             THEN r' = r + 1 /\ tags' = <<>> /\ rtags' = <<>> /\ Goto("hcr")
             ELSE Goto("log") /\ UNCHANGED <<r, tags, rtags>>
-         /\ UNCHANGED <<prog, auth, ending, nhcr, calls, conn, doconn, fwd, out, closed>>
+         /\ UNCHANGED <<prog, auth, ending, nhcr, calls, conn, doconn, fwd, out, closed, dest>>
 
 \* the connection is over (whoever ended it): access-log chain, then on_upstream_connection_close of every plugin
 Log == /\ pc = "log"
        /\ IF i > NP THEN Goto("close") /\ UNCHANGED calls
           ELSE /\ Call(i, "log", <<>>)
                /\ IF prog[i].log = "none" THEN Goto("close") ELSE i' = i + 1 /\ UNCHANGED pc
-       /\ UNCHANGED <<prog, auth, ending, r, tags, rtags, nhcr, conn, doconn, fwd, out, closed>>
+       /\ UNCHANGED <<prog, auth, ending, r, tags, rtags, nhcr, conn, doconn, fwd, out, closed, dest>>
 Close == /\ pc = "close"
          /\ IF i > NP THEN Goto("done") /\ UNCHANGED calls
             ELSE Call(i, "close", <<>>) /\ i' = i + 1 /\ UNCHANGED pc
-         /\ UNCHANGED <<prog, auth, ending, r, tags, rtags, nhcr, conn, doconn, fwd, out, closed>>
+         /\ UNCHANGED <<prog, auth, ending, r, tags, rtags, nhcr, conn, doconn, fwd, out, closed, dest>>
 
-Next == Auth \/ Buc \/ Connect \/ Hcr \/ Resp \/ After \/ Log \/ Close
+Next == Auth \/ Buc \/ Dns \/ Connect \/ Hcr \/ Resp \/ After \/ Log \/ Close
 Spec == Init /\ [][Next]_vars
 
 (* ---------------- the property, as invariants of the design ---------------- *)
@@ -137,6 +148,9 @@ LifecycleOnce == pc = "done" =>
                   /\ \A p \in 1..NP : Cardinality({k \in Idx("log") : calls[k].p = p})
                                         = IF \E q \in 1..(p - 1) : prog[q].log = "none" THEN 0 ELSE 1
                   /\ \A k \in Idx("log") \cup Idx("close") : \A j \in 1..Len(calls) : (calls[j].h \notin {"log", "close"}) => j < k
+\* the address connected to is the one named by the FIRST plugin whose resolve_dns names one; later plugins are not asked
+DnsFirstWins == /\ (dest # 0 => prog[dest].dns = "ip" /\ \A q \in 1..(dest - 1) : prog[q].dns = "none")
+                /\ \A k \in Idx("dns") : dest = 0 \/ calls[k].p <= dest
 \* one response per forwarded request unless a plugin dropped the chunk or the conversation was cut short
 Terminates == <>(pc = "done")
 =============================================================================
